@@ -12,6 +12,8 @@ func SetMapOrderHook(f func(n int) []int)       { verifrt.MapOrderHook = f }
 func SetSchedHooks(point func(label string), block func(label string, waiting func() bool)) {
 	verifrt.PointHook, verifrt.BlockHook = point, block
 }
+func SetStepHook(f func()) { verifrt.StepHook = f }
+
 func AccessSites() []string { return verifrt.Sites }
 
 // GlobalPointers returns pointers to every package-level variable of the library, per package.
